@@ -1004,3 +1004,6 @@ Definition run_verify (cs : case) (pm : pmut) (kernel : option bool) (vparent : 
     end
   | _ => [3%Z]
   end.
+
+Definition run_verify_t (x : case * pmut * option bool * N) : list Z :=
+  let '(cs, pm, kernel, vparent) := x in run_verify cs pm kernel vparent.
